@@ -6,6 +6,25 @@ CBS = ["on_open", "on_reconnect", "on_message", "on_data", "on_error", "on_close
 MODE_LETTER = {None: "A", "ret": "R", "raise": "X", "close": "C", "kbd": "K"}
 
 
+def close_body_legal(body, skip):
+    """RFC 6455 7.4 / 5.5.1 as the frame layer enforces it (Spec/Legal.v): empty, or a valid code followed by well-formed UTF-8
+    (the reason is only checked while validation is on)."""
+    if len(body) == 0:
+        return True
+    if len(body) == 1:
+        return False
+    code = int.from_bytes(body[:2], "big")
+    if not (code in (1000, 1001, 1002, 1003, 1007, 1008, 1009, 1010, 1011, 1012, 1013, 1014) or 3000 <= code < 5000):
+        return False
+    if skip:
+        return True
+    try:
+        body[2:].decode("utf-8")
+        return True
+    except UnicodeDecodeError:
+        return False
+
+
 def model_line(sc):
     modes = "".join(MODE_LETTER[sc["callbacks"].get(c)] for c in CBS)
     atts = []
@@ -17,7 +36,9 @@ def model_line(sc):
         else:
             evs = []
             for e in a["evs"]:
-                if e[0] == "F":
+                if e[0] == "F" and e[1] == 8 and not close_body_legal(bytes.fromhex(e[3]), bool(sc.get("skip"))):
+                    evs.append("BP")      # the app model takes validated frames; an illegal close frame is its protocol-error event
+                elif e[0] == "F":
                     evs.append(f"F{e[2]}.{e[1]}:{e[3] or '-'}")
                 else:
                     evs.append(e[0])
@@ -101,7 +122,29 @@ def impl_line(res):
     return ",".join(out) + f";ret={ret};sock={0 if res['app_sock_none'] else 1}"
 
 
-def model_callbacks(line):
-    """Drop the resource markers (#connect ...) from the model's trace."""
+def reason_digest(raw):
+    """What on_close is told for the reason bytes `raw`: CPython's bytes.decode("utf-8", errors="replace") (glue outside the model:
+    the model carries the raw bytes; for well-formed UTF-8 this is the exact decoding)."""
+    return digest(raw.decode("utf-8", errors="replace").encode("utf-8"))
+
+
+def model_callbacks(line, sc=None):
+    """Drop the resource markers (#connect ...) from the model's trace; with a scenario, spell the close reason the way the
+    implementation reports it (decoded str) instead of the model's raw bytes."""
     tr, _, rest = line.partition(";")
-    return ",".join(t for t in tr.split(",") if t and not t.startswith("#")) + ";" + rest
+    items = [t for t in tr.split(",") if t and not t.startswith("#")]
+    if sc is not None:
+        remap = {}
+        for a in sc.get("attempts", []):
+            for e in a.get("evs", []):
+                if e[0] == "F" and e[1] == 8 and len(bytes.fromhex(e[3])) >= 2:
+                    raw = bytes.fromhex(e[3])[2:]
+                    remap[digest(raw)] = reason_digest(raw)
+        out = []
+        for t in items:
+            p = t.split(":")
+            if p[0] == "close" and len(p) == 3 and p[2] in remap:
+                t = f"close:{p[1]}:{remap[p[2]]}"
+            out.append(t)
+        items = out
+    return ",".join(items) + ";" + rest
